@@ -109,7 +109,7 @@ def main():
             ''.join('  %s:%s' % (c, 'D' if v['violations'] else 'miss')
                     for c, v in r['checks'].items() if c != r['property']), flush=True)
         rows.append(r)
-    with open(os.path.join(root, 'last_results.json'), 'w') as f:
+    with open(os.path.join(root, 'results_%s.json' % (a.only or 'all').strip('-')), 'w') as f:
         json.dump(rows, f, indent=1)
 
 
